@@ -54,7 +54,7 @@ func gramAlien(r *Rng, tier string) string {
 	}
 	n := r.Pick(0, 0, 1, 2, 7, 8, 9, 20)
 	if r.Chance(1, 10) {
-		n = r.Pick(127, 128, 300)
+		n = r.Pick(127, 128, 300, 511, 512, 513, 1024, 1536, 4096, 8192)
 	}
 	data := r.Bytes(n)
 	if r.Chance(1, 4) && n >= 8 { // data that looks like a track chunk
